@@ -11,13 +11,14 @@ inductive Pt where
   | node (q : Node)
   | step (k i : Nat)
   | root (k i j : Nat)
-deriving DecidableEq, Repr
+deriving DecidableEq, Repr, Inhabited
 
 /-- `eval_at_control(expr, k)` with an operand shifted by `o`: can the operand be resolved?
-  (`k == -1 and offset > 0 → IndexError`, `k + offset < 0 → IndexError`, `X[k+offset]` beyond the
-  list → `IndexError`; with `k = -1` Python computes `-1 + offset`). -/
+  (`k + offset < 0 → IndexError`, `X[k+offset]` beyond the list → `IndexError`; the final node
+  `k = -1` is node `N`: a positive offset leaves the horizon, a non-positive one is resolved at
+  node `N + offset`). -/
 def offsetOk (N : Nat) : Node → Int → Bool
-  | .final, _ => false
+  | .final, o => decide (o ≤ 0) && decide (0 ≤ (N : Int) + o)
   | .at k, o => decide (0 ≤ (k : Int) + o) && decide ((k : Int) + o ≤ N)
 
 /-- index of the node a shifted operand is evaluated at -/
